@@ -124,6 +124,20 @@ QWidget {
 }
 """
 
+# the only user of console.* is a CONSTANT member of a gadget group that also has a dynamic member (the group is then
+# evaluated by the support code, constant members included)
+INCLUDE_QML = """import qmluic.QtWidgets
+QWidget {
+    id: root
+    QCheckBox { id: cb }
+    VfWidget {
+        id: g2
+        font.bold: cb.checked
+        font.pointSize: { console.log("only user of QtDebug"); return 12 }
+    }
+}
+"""
+
 
 def run(tier, seed, replay=None):
     v = common.Verdict("C16", tier, seed)
@@ -180,6 +194,10 @@ def run(tier, seed, replay=None):
     raw.source, raw.kind, raw.bindings, raw.type_name = COLLIDE_QML, "collisions", [], "MyType"
     raw.drop_rejected = lambda diags: []
     docs.append(raw)
+    raw2 = Raw()
+    raw2.source, raw2.kind, raw2.bindings, raw2.type_name = INCLUDE_QML, "include-hazard", [], "MyType"
+    raw2.drop_rejected = lambda diags: []
+    docs.append(raw2)
     if replay:
         rp = json.load(open(replay))
         docs = [d for d in docs if d.source == rp.get("qml")]
